@@ -39,6 +39,11 @@ type opRec struct {
 	K    int64 `json:"k"`
 	V    int64 `json:"v"`
 	Sz   int64 `json:"s"`
+	// F != 0 (class fault, on a Peek of cache.LRUCache): immediately BEFORE the Peek the harness issues a call whose
+	// value's Size() panics and recovers from it: 1 Set(K, panicking value), 2 SetAndGetRemoved(K, panicking value),
+	// 3 Set(K, nil Value).  A call that panics in the user's callback has not returned: the cache must be as it was,
+	// which the Peek's outcome and the snapshot after it are compared against (the model's Peek changes nothing).
+	F int `json:"f,omitempty"`
 }
 
 const (
@@ -115,6 +120,34 @@ type sval struct {
 }
 
 func (s sval) Size() int { return s.sz }
+
+// a value whose Size() panics (a bug in user code, or a nil receiver)
+type panicVal struct{ id int64 }
+
+func (panicVal) Size() int { panic("Size() of this value panics") }
+
+// faultCall issues the faulted call of o.F on a cache.LRUCache; it reports whether the call panicked (it must:
+// every implementation needs Size() to account for the value)
+func faultCall(c lruAPI, o opRec) (panicked, applicable bool) {
+	a, ok := c.(*stdLRU)
+	if !ok || o.F == 0 {
+		return false, false
+	}
+	defer func() {
+		if recover() != nil {
+			panicked = true
+		}
+	}()
+	switch o.F {
+	case 1:
+		a.c.Set(mkKey(a.kk, o.K), panicVal{o.K})
+	case 2:
+		a.c.SetAndGetRemoved(mkKey(a.kk, o.K), panicVal{o.K})
+	default:
+		a.c.Set(mkKey(a.kk, o.K), nil)
+	}
+	return false, true
+}
 
 func stdVal(v cache.Value) int64 {
 	if s, ok := v.(sval); ok {
